@@ -223,6 +223,9 @@ def make_map(st):
     if 'sentinel' in kw:
         if np.dtype(dtype).kind == 'f':
             kw['sentinel'] = float(kw['sentinel'])
+            if st.get('sentinel_np64'):
+                # a NumPy double scalar (e.g. a value read from a header): it must be expressed in the map's type
+                kw['sentinel'] = np.float64(kw['sentinel'])
         elif np.dtype(dtype).kind == 'b':
             kw['sentinel'] = bool(kw['sentinel'])
         else:
@@ -389,6 +392,21 @@ def observe_map(m, meta, h, step_i, what):
             vlon, vlat = m.valid_pixels_pos(lonlat=True)
             if [int(p) for p in hpg.angle_to_pixel(meta.ns, vlon, vlat)] != [int(p) for p in m.valid_pixels]:
                 errs.append('valid_pixels_pos does not give the centres of valid_pixels')
+            # every combination of the options: co-latitude/longitude in radians, with the pixel numbers
+            vpl = [int(p) for p in m.valid_pixels]
+            for ll in (True, False):
+                for rp in (False, True):
+                    r_ = m.valid_pixels_pos(lonlat=ll, return_pixels=rp)
+                    if rp:
+                        if [int(p) for p in r_[0]] != vpl:
+                            errs.append('valid_pixels_pos(return_pixels=True) lists other pixels than valid_pixels')
+                        r_ = r_[1:]
+                    if len(vpl) and [int(p) for p in hpg.angle_to_pixel(meta.ns, r_[0], r_[1], lonlat=ll)] != vpl:
+                        errs.append('valid_pixels_pos(lonlat=%s, return_pixels=%s) does not give the centres of valid_pixels' % (ll, rp))
+                    elif len(vpl):
+                        back = m.get_values_pos(r_[0], r_[1], lonlat=ll, valid_mask=True)
+                        if not bool(np.all(back)):
+                            errs.append('positions from valid_pixels_pos(lonlat=%s, return_pixels=%s) do not read back as valid' % (ll, rp))
             if meta.kind == 'wide' and meta.npix <= 4096:
                 for bits in ([0], [meta.width * 8 - 1], [1, 8] if meta.width > 1 else [1]):
                     a = np.asarray(m.check_bits_pix(allpix, bits))
@@ -509,6 +527,20 @@ def observe_map(m, meta, h, step_i, what):
                 want = base[sel // nfine_up]
                 if meta.cells(got) != meta.cells(want):
                     errs.append('get_values_pix(nside=%d) differs from the value of the containing pixel' % (meta.ns * up))
+                # the same lookup in the model: L1 read (p / r), L0 the dense upgrade at p (C15 theorem
+                # finer_lookup_is_the_lookup_on_the_upgraded_map)
+                gcells = meta.cells(got)
+
+                def cmp_finer(res, gcells=gcells, up=up):
+                    mm = []
+                    if not tokens_equal(gcells, res[1], meta):
+                        mm.append(dict(step=step_i, what='get_values_pix(nside=%d) vs L1 read of the containing pixel' % (meta.ns * up),
+                                       layer='L1', impl=_first_diff(gcells, res[1], meta), model=None))
+                    if not tokens_equal(gcells, res[2], meta):
+                        mm.append(dict(step=step_i, what='get_values_pix(nside=%d) vs L0 upgraded dense map' % (meta.ns * up),
+                                       layer='L0', impl=_first_diff(gcells, res[2], meta), model=None))
+                    return mm
+                out.append(([[37], [h], [0], [nfine_up], [int(p) for p in sel0]], cmp_finer))
                 gv = np.asarray(m.get_values_pix(sel, nside=meta.ns * up, valid_mask=True))
                 if not np.array_equal(gv, basev[sel // nfine_up]):
                     errs.append('get_values_pix(nside=%d, valid_mask=True) differs from the validity of the containing pixel' % (meta.ns * up))
@@ -554,8 +586,7 @@ def observe_map(m, meta, h, step_i, what):
 
             def cmp_fd(res, fd=fd, err=err, ns=ns, r=r):
                 if err:
-                    if meta.kind == 'packed' and r % 8 != 0:
-                        return []      # documented restriction of the packed reshaped sum (see C05 notes)
+                    # (bit-packed maps with fewer than 8 fine pixels per fracdet pixel used to raise: F50, fixed)
                     return [dict(step=step_i, what=err, layer='L0', impl='RAISED', model=None)]
                 vals, rawidx, rawsp, vp, info = fd
                 mm = []
